@@ -601,3 +601,46 @@ fn probe_c12_pointer_write_after_processed_record_is_lost() {
     println!("F22 after retry: last_message_id {:?}, stored messages {}", after.last_message_id.map(|i| i.to_hex()[..8].to_string()), bob.get_messages(&gid, None).unwrap().len());
     let _ = r;
 }
+
+/// F23 candidate (C18 pointer clause): the last-message pointer lives in the groups row, which a rollback restores to its value at
+/// snapshot time. A message of the *old* epoch that arrived after the snapshot stays valid (only epochs above the target are
+/// invalidated) but the pointer no longer designates it.
+#[test]
+fn probe_c18_pointer_after_rollback_misses_late_old_epoch_message() {
+    use nostr::{Tag, TagKind, Timestamp};
+    let (alice, bob, alice_keys, _bob_keys, gid) = two_party();
+    let e0 = bob.get_group(&gid).unwrap().unwrap().epoch;
+    let mut r0 = create_test_rumor(&alice_keys, "m0, before the commit");
+    let m0 = r0.id();
+    let ev0 = alice.create_message(&gid, r0).unwrap();
+    bob.process_message(&ev0).unwrap();
+    // m1 is sent in epoch e0 as well but reaches Bob only after the commit
+    std::thread::sleep(std::time::Duration::from_millis(1100));
+    let mut r1 = create_test_rumor(&alice_keys, "m1, sent in the old epoch, delivered late");
+    let m1 = r1.id();
+    let ev1 = alice.create_message(&gid, r1).unwrap();
+    let upd = alice.self_update(&gid).unwrap();
+    alice.merge_pending_commit(&gid).unwrap();
+    bob.process_message(&upd.evolution_event).unwrap();
+    let r = bob.process_message(&ev1);
+    println!("F23 late old-epoch message: {:?}", r.as_ref().map(|x| format!("{:?}", x).chars().take(30).collect::<String>()).map_err(|e| e.to_string()));
+    let g = bob.get_group(&gid).unwrap().unwrap();
+    println!("F23 before rollback: epoch {}, pointer is m1: {}, m1.epoch {:?}", g.epoch, g.last_message_id == Some(m1), bob.get_message(&gid, &m1).unwrap().map(|m| m.epoch));
+    // a competing commit for epoch e0 with an earlier timestamp makes Bob roll back to e0 (here: the re-wrapped copy, see F16)
+    let secret = bob.storage().get_group_exporter_secret(&gid, e0).unwrap().expect("epoch e0 secret");
+    let bytes = crate::util::decrypt_with_exporter_secret(&secret, &upd.evolution_event.content).unwrap();
+    let k = Keys::new(nostr::SecretKey::from_slice(secret.secret.as_ref()).unwrap());
+    let content = nostr::nips::nip44::encrypt(k.secret_key(), &k.public_key, &bytes, nostr::nips::nip44::Version::default()).unwrap();
+    let h = upd.evolution_event.tags.iter().find(|t| t.kind() == TagKind::h()).unwrap().clone();
+    let rewrapped = EventBuilder::new(Kind::MlsGroupMessage, content)
+        .tag(Tag::custom(TagKind::h(), [h.content().unwrap().to_string()]))
+        .custom_created_at(Timestamp::from_secs(upd.evolution_event.created_at.as_secs() - 5))
+        .sign_with_keys(&Keys::generate())
+        .unwrap();
+    let _ = bob.process_message(&rewrapped);
+    let g = bob.get_group(&gid).unwrap().unwrap();
+    let listed = bob.get_messages(&gid, None).unwrap();
+    let first_valid = listed.iter().find(|m| m.state != mdk_storage_traits::messages::types::MessageState::EpochInvalidated).map(|m| m.id);
+    println!("F23 after rollback: epoch {}, m1 state {:?}", g.epoch, bob.get_message(&gid, &m1).unwrap().map(|m| m.state));
+    println!("F23 pointer is m0: {}, pointer is m1: {}, first valid listed is m1: {}", g.last_message_id == Some(m0), g.last_message_id == Some(m1), first_valid == Some(m1));
+}
